@@ -29,7 +29,7 @@ use serde_json::{json, Value};
 use std::cmp::Ordering;
 use std::collections::hash_map::DefaultHasher;
 use std::collections::{BTreeSet, HashSet};
-use std::hash::{BuildHasherDefault, Hash, Hasher};
+use std::hash::{BuildHasherDefault, Hash};
 
 type FixedState = BuildHasherDefault<DefaultHasher>;
 
